@@ -110,7 +110,7 @@ func (fs *Filespace) Writer(path string) (w filesystem.Writer, err error) {
 	if path, err = varutil.ReduceAbsPath(path); err != nil {
 		return nil, err
 	}
-	if file, err = os.OpenFile(fs.path+path, os.O_WRONLY|os.O_CREATE, filesystem.DefaultUnixFileMode); err != nil {
+	if file, err = os.OpenFile(fs.path+path, os.O_WRONLY|os.O_CREATE|os.O_TRUNC, filesystem.DefaultUnixFileMode); err != nil {
 		return nil, err
 	}
 	return NewFileHandler(file), nil
